@@ -59,7 +59,21 @@ def cl_registry(ctx):
 
 
 def c_kernel_value(fns, consts, name, nparams, skip):
-    """Complex value of C kernel function ``name`` at the generic point pair (list for gradient kernels)."""
+    """Complex value of C kernel function ``name`` at the generic point pair (list for gradient kernels).  A guard on
+    the sign of a kernel parameter is followed both ways; the two values must be the same function (K-SIGN-GUARD)."""
+    v, ifs, signs = _c_kernel_value(fns, consts, name, nparams, skip, False)
+    if signs:
+        v2, _, _ = _c_kernel_value(fns, consts, name, nparams, skip, True)
+        a, b = (v if isinstance(v, list) else [v]), (v2 if isinstance(v2, list) else [v2])
+        if not all(x.eq(y) for x, y in zip(a, b)):
+            from ..core import SignGuard
+
+            raise SignGuard(KH, name, fns[name].line, "sign guard: " + "; ".join(signs),
+                            "the OpenCL kernel applies part of its formula only when `%s`: for the other sign of that parameter the value is a different function (kernels are analytic in their parameters)" % "`, `".join(signs))
+    return v, ifs
+
+
+def _c_kernel_value(fns, consts, name, nparams, skip, skip_sign):
     f = fns[name]
     if len(f.params) != 6:
         raise AnalysisError("C kernel %s does not have the 6-ary kernel signature" % name)
@@ -80,14 +94,15 @@ def c_kernel_value(fns, consts, name, nparams, skip):
         kp.d[(i,)] = a
     res = cfront.CArr()
     ev = cfront.Ev(fns, consts, KH)
+    ev.skip_sign = skip_sign
     ev.call(name, args + [kp, res], skip=skip)
     d = res.d
     if set(d) == {(0,)}:
-        return d[(0,)], ev.ifs
+        return d[(0,)], ev.ifs, ev.sign_ifs
     if set(d) == {(0,), (1,)}:
-        return d[(0,)] + I * d[(1,)], ev.ifs
+        return d[(0,)] + I * d[(1,)], ev.ifs, ev.sign_ifs
     if set(d) == {(i, j) for i in range(3) for j in range(2)}:
-        return [d[(i, 0)] + I * d[(i, 1)] for i in range(3)], ev.ifs
+        return [d[(i, 0)] + I * d[(i, 1)] for i in range(3)], ev.ifs, ev.sign_ifs
     raise AnalysisError("C kernel %s writes an unexpected set of result slots %s" % (name, sorted(d)))
 
 
